@@ -45,7 +45,7 @@ class C19:
     assumptions = ["mappings start at offset 0 and consecutive entries have different lines (what compilers emit); "
                    "equal consecutive lines are merged by every decoder and are not generated",
                    "Code3 covers 3.0-3.7 (unsigned before 3.6): only non-decreasing lines are required there"]
-    budgets = {"quick": {"shards": 8, "examples": 500, "seconds": 60},
+    budgets = {"quick": {"shards": 8, "examples": 2500, "seconds": 60},
                "thorough": {"shards": 16, "examples": 20000, "seconds": 900}}
 
     def strategy(self, ctx):
